@@ -973,6 +973,17 @@ where
         let mut events = Vec::new();
 
         if self.pid_man.is_used_id(packet_id) {
+            // The exchange that used this id (if any) is abandoned - typically because
+            // the packet could not be written to the transport: no acknowledgement is
+            // awaited for it any more and it no longer occupies a Receive Maximum slot
+            let was_publish =
+                self.pid_puback.remove(&packet_id) | self.pid_pubrec.remove(&packet_id);
+            self.pid_pubcomp.remove(&packet_id);
+            self.pid_suback.remove(&packet_id);
+            self.pid_unsuback.remove(&packet_id);
+            if was_publish && self.publish_send_max.is_some() {
+                self.publish_send_count = self.publish_send_count.saturating_sub(1);
+            }
             self.pid_man.release_id(packet_id);
             events.push(GenericEvent::NotifyPacketIdReleased(packet_id));
         }
